@@ -91,12 +91,13 @@ def nodeVal (S : Sem Val) (tblOf : (Nat → Val) → List (List Val)) (bind : Na
 def table (S : Sem Val) : List PNode → (Nat → Val) → List (List Val)
   | [], _ => []
   | n :: older, bind =>
+    let t := table S older bind          -- shared: the compiled code evaluates the older nodes once
     (match n.kind.label? with
       | none => [bind older.length]
-      | some l => S.op l (n.inputs.map (getOpt (table S older bind)))
+      | some l => S.op l (n.inputs.map (getOpt t))
           (n.subs.map fun g => fun vals =>
             g.results.map (getVar (table S older (updArgs bind g.args vals)))))
-    :: table S older bind
+    :: t
 
 /-- The value of an output under an argument binding: the program's dataflow, evaluated directly. -/
 def denote (S : Sem Val) (prog : List PNode) (bind : Nat → Val) (r : VarRef) : Val :=
